@@ -642,6 +642,15 @@ func (o *operation) handle() {
 	o.methodConf.handler.ServeHTTP(o.writer, o.request)
 }
 
+var errExtraResponseMessage = errors.New("method returns a single response message, but the server sent another one")
+
+// extraResponseMessage is the response-side counterpart of extraRequestMessage:
+// the method returns exactly one message and the client's protocol has no
+// envelopes, so a second message would run into the first one's body.
+func (o *operation) extraResponseMessage() bool {
+	return o.clientEnveloper == nil && o.methodConf.streamType&connect.StreamTypeServer == 0
+}
+
 var errExtraRequestMessage = errors.New("method takes a single request message, but the client sent another one")
 
 // extraRequestMessage reports whether a second request message is an error
@@ -1467,6 +1476,8 @@ type envelopingWriter struct {
 	mustReleaseCurrent  bool
 	currentIsTrailer    bool
 	trailerIsCompressed bool
+	// number of (non-trailer) messages seen so far
+	messages int
 }
 
 func (w *envelopingWriter) Write(data []byte) (n int, err error) {
@@ -1563,6 +1574,11 @@ func (w *envelopingWriter) handleEnvelopeWritten() error {
 		w.trailerIsCompressed = env.compressed
 		w.remainingBytes = int(env.length)
 		return nil
+	}
+	w.messages++
+	if w.messages > 1 && w.rw.op.extraResponseMessage() {
+		w.rw.reportError(errExtraResponseMessage)
+		return errExtraResponseMessage
 	}
 	if w.rw.op.clientEnveloper != nil {
 		envBytes := w.rw.op.clientEnveloper.encodeEnvelope(env)
@@ -1719,6 +1735,8 @@ type transformingWriter struct {
 	expectingBytes  int
 	writingEnvelope bool
 	latestEnvelope  envelope
+	// number of (non-trailer) messages seen so far
+	messages int
 }
 
 func (w *transformingWriter) Write(data []byte) (n int, err error) {
@@ -1836,6 +1854,11 @@ func (w *transformingWriter) flushMessage() error {
 		w.rw.reportEnd(&end)
 		w.err = errFinalDataAlreadyWritten
 		return nil
+	}
+
+	w.messages++
+	if w.messages > 1 && w.rw.op.extraResponseMessage() {
+		return errExtraResponseMessage
 	}
 
 	// We've finished reading the message, so we can manually set the stage
